@@ -624,3 +624,6 @@ Proof.
   - exists 0%nat. split; [lia|]. cbn. lra.
   - intros j Hj. cbn. ring.
 Qed.
+
+Lemma ex_singular_refused : forall b : vec R, ge 2 2 (fun _ _ => 1) 2 b (1 / 1000) = Err ESingularMatrix.
+Proof. apply c08_singular_refused; [lra | exact ex_singular_hyp]. Qed.
